@@ -717,6 +717,35 @@ Definition add_part (height : Z) (ph : psh) (idx : N) (decoded : option block) :
         else (set_prop (cs_proposal s) (cs_pblock s) (Some pp') s, [])
     end.
 
+(* the first part of the prevote branch of addVote: on a +2/3 prevote majority for round [vr],
+   maybe unlock, maybe update the valid block / the block being fetched *)
+Definition polka_update (vr : Z) (s1 : cstate) : cstate :=
+  match o_maj23 (prevotes (cs_votes s1) vr) with
+  | None => s1
+  | Some polka =>
+    let h := match polka with Some (h, _) => h | None => 0%N end in
+    let nonnil := match polka with Some _ => true | None => false end in
+    let s_u :=
+      match cs_lblock s1 with
+      | Some _ =>
+        if (cs_lround s1 <? vr) && (vr <=? cs_round s1)
+           && negb (nonnil && hashes_to (cs_lblock s1) h)
+        then set_locked (-1) None None s1 else s1
+      | None => s1
+      end in
+    match polka with
+    | Some (h, ph) =>
+      if (cs_vround s_u <? vr) && (vr =? cs_round s_u) then
+        let s_v := if hashes_to (cs_pblock s_u) h
+                   then set_valid vr (cs_pblock s_u) (cs_pparts s_u) s_u
+                   else set_prop (cs_proposal s_u) None (cs_pparts s_u) s_u in
+        if negb (has_header (cs_pparts s_v) ph)
+        then set_prop (cs_proposal s_v) (cs_pblock s_v) (Some (new_parts ph)) s_v else s_v
+      else s_u
+    | None => s_u
+    end
+  end.
+
 (* addVote (through tryAddVote) *)
 Definition add_vote (v : vote) (peer : N) : M :=
   fun s =>
@@ -743,34 +772,7 @@ Definition add_vote (v : vote) (peer : N) : M :=
       if negb added then (s1, errs) else
       let '(s9, o9) :=
         if (v_type v =? PREVOTE)%N then
-          let pv := prevotes (cs_votes s1) (v_round v) in
-          (* a polka: maybe unlock, maybe update the valid block *)
-          let s2 :=
-            match o_maj23 pv with
-            | None => s1
-            | Some polka =>
-              let h := match polka with Some (h, _) => h | None => 0%N end in
-              let nonnil := match polka with Some _ => true | None => false end in
-              let s_u :=
-                match cs_lblock s1 with
-                | Some _ =>
-                  if (cs_lround s1 <? v_round v) && (v_round v <=? cs_round s1)
-                     && negb (nonnil && hashes_to (cs_lblock s1) h)
-                  then set_locked (-1) None None s1 else s1
-                | None => s1
-                end in
-              match polka with
-              | Some (h, ph) =>
-                if (cs_vround s_u <? v_round v) && (v_round v =? cs_round s_u) then
-                  let s_v := if hashes_to (cs_pblock s_u) h
-                             then set_valid (v_round v) (cs_pblock s_u) (cs_pparts s_u) s_u
-                             else set_prop (cs_proposal s_u) None (cs_pparts s_u) s_u in
-                  if negb (has_header (cs_pparts s_v) ph)
-                  then set_prop (cs_proposal s_v) (cs_pblock s_v) (Some (new_parts ph)) s_v else s_v
-                else s_u
-              | None => s_u
-              end
-            end in
+          let s2 := polka_update (v_round v) s1 in
           let pv2 := prevotes (cs_votes s2) (v_round v) in
           if (cs_round s2 <? v_round v) && o_has_any pv2 then enter_new_round height (v_round v) s2
           else if (cs_round s2 =? v_round v) && step_le SPrevote (cs_step s2) then
